@@ -21,6 +21,12 @@ func init() {
 			c20R2(c, "C20.R2")
 			c20R3(c, "C20.R3")
 			c20R4(c, "C20.R4")
+			ruleTestedErrorsPropagate(c, "C20.R7", []string{modulePath + "/internal/guts_cli", modulePath + "/internal/surgeon", cmdPath, commonPath}, 30, func(n string) bool {
+				return !strings.HasPrefix(n, "command.") || strings.Contains(strings.ToLower(n), "surgery") || strings.Contains(n, "MetaPageAt")
+			}) // a repair step that failed is not reported as success
+			ruleWriteErrorsKept(c, "C20.R8", []string{modulePath + "/internal/guts_cli", modulePath + "/internal/surgeon", cmdPath, commonPath}, 4, func(n string) bool {
+				return !strings.HasPrefix(n, "command.") || strings.Contains(strings.ToLower(n), "surgery") || strings.Contains(n, "MetaPageAt")
+			})
 			ruleMetaSlot(c, "C20.R6") // "reverting the meta page immediately after a commit yields the previously committed state": commits alternate slots, so the other page IS the previous state
 			ruleChecksumAfterMutation(c, "C20.R5", 5) // revert copies the OTHER meta page: it restores a valid state only if every writer of meta pages (commit, init, backup, surgery) leaves both pages checksummed after their last change
 		},
